@@ -27,6 +27,7 @@ pub mod c25;
 pub mod c26;
 pub mod c27;
 pub mod c28;
+pub mod c29;
 pub mod c31;
 pub mod c34;
 pub mod c36;
@@ -61,6 +62,7 @@ pub fn run(ctx: &Ctx, id: &str) -> bool {
         "C26" => c26::run(ctx),
         "C27" => c27::run(ctx),
         "C28" => c28::run(ctx),
+        "C29" => c29::run(ctx),
         "C31" => c31::run(ctx),
         "C34" => c34::run(ctx),
         "C36" => c36::run(ctx),
